@@ -250,7 +250,11 @@ fn run_generate(
         _ => return Err("Invalid validation library. Use 'zod' or 'none'".into()),
     };
 
+    // From here on the output directory is being rewritten: drop the old cache record first
+    GenerationCache::invalidate(&config.output_path);
+
     let mut generator = create_generator(validation);
+    let mut written_files = Vec::new();
     let generated_files = generator.generate_models(
         &commands,
         discovered_structs,
@@ -269,13 +273,17 @@ fn run_generate(
         let dot_viz = analyzer.generate_dot_graph(&commands);
         let dot_file_path = PathBuf::from(&config.output_path).join("dependency-graph.dot");
         fs::write(&dot_file_path, dot_viz)?;
+        written_files.push("dependency-graph.txt".to_string());
+        written_files.push("dependency-graph.dot".to_string());
 
         print_dependency_visualization_info(&config.output_path);
     }
+    written_files.extend(generated_files.iter().cloned());
 
     // Save cache after successful generation
     let cache = GenerationCache::new(&commands, discovered_structs, &config)?
-        .with_events(analyzer.get_discovered_events())?;
+        .with_events(analyzer.get_discovered_events())?
+        .with_files(&written_files);
     if let Err(e) = cache.save(&config.output_path) {
         eprintln!("Warning: Failed to save generation cache: {}", e);
     }
